@@ -1,7 +1,8 @@
 // C09 driver: real babylon::Epoch under the deterministic scheduler, with the client protocol the property
 // talks about (shared pointer cell + freed flag).  Built with -fno-access-control so that the monitors can
 // read Epoch::_version without a scheduling point; nothing of /repo is edited.
-// stdin lines:  <case-id> <sched-seed> <strategy> <tl|acc> <owners o,o,..|-> <program>
+// stdin lines:  <case-id> <sched-seed> <strategy> <tl|acc|acc<N>> <owners o,o,..|-> <program>
+//   acc<N>: N anonymous accessors are created before the threads start (slot indices start at N; not in the model)
 //   program = threads separated by '|', ops separated by ',':
 //     C<h>      acc[h] = epoch.create_accessor()            (acc mode, by the owner of handle h, h unbound)
 //     L<h>      acc[h].lock()      | epoch.lock()   (tl mode: h ignored, handle = thread)
@@ -38,6 +39,7 @@ int main(int, char**) {
     unsigned long long seed; int strategy;
     if (sscanf(line, "%63s %llu %d %15s %4095s %59999s", id, &seed, &strategy, mode, owners_s, prog) != 6) continue;
     const bool tl = strcmp(mode, "tl") == 0;
+    const int prebulk = (!tl && strlen(mode) > 3) ? atoi(mode + 3) : 0;   // "acc<N>": N accessors created before the threads start
     std::vector<std::vector<Op>> threads;
     {
       std::stringstream ss(prog); std::string th;
@@ -64,6 +66,7 @@ int main(int, char**) {
       std::vector<std::vector<Epoch::Accessor>> acc(NT + 1);
       for (auto& v : acc) v.resize(H);
       std::vector<Epoch::Accessor> bulk; bulk.reserve(8192);
+      for (int k = 0; k < prebulk; ++k) bulk.push_back(epoch.create_accessor());
       std::vector<long> depth(H, 0);
       std::vector<Obj*> held(H, nullptr);
       std::vector<uint64_t> entered(H, 0);
